@@ -111,7 +111,20 @@ fn ctx_cfg(g: &mut Gen) -> (u8, Vec<u8>, Vec<VendorIDFormat>) {
     let nt = g.below(31);
     let types = g.bytes(nt);
     let nv = 1 + g.below(16);
-    let vids = (0..nv).map(|_| VendorIDFormat { format: g.u8() & 1, data: u32::from_be_bytes([g.u8(), g.u8(), g.u8(), g.u8()]), numeric_value: u16::from_be_bytes([g.u8(), g.u8()]) }).collect();
+    let mut vids: Vec<VendorIDFormat> = vec![];
+    let dup = g.below(3) == 0; // configurations with repeated (field-for-field identical) sets are valid too
+    for k in 0..nv {
+        if dup && k > 0 && g.bool() {
+            let j = g.below(k);
+            let v = VendorIDFormat { format: vids[j].format, data: vids[j].data, numeric_value: vids[j].numeric_value };
+            vids.push(v);
+        } else {
+            let small = g.below(4) == 0; // small identifiers / zero numeric values are interesting boundary values
+            let data = if small { g.u8() as u32 } else { u32::from_be_bytes([g.u8(), g.u8(), g.u8(), g.u8()]) };
+            let nv16 = if small { 0 } else { u16::from_be_bytes([g.u8(), g.u8()]) };
+            vids.push(VendorIDFormat { format: g.u8() & 1, data, numeric_value: nv16 });
+        }
+    }
     (addr, types, vids)
 }
 
@@ -121,6 +134,14 @@ fn err_class(e: &(MessageType, DecodeError)) -> String {
 
 // ---------------------------------------------------------------------------------------------- per-property checks
 type Chk = fn(&mut Gen) -> Result<(), String>;
+
+fn fit(buf: &mut Vec<u8>, expect: &Option<(u8, Vec<u8>)>, exact: bool) {
+    if exact {
+        if let Some((_, b)) = expect {
+            if b.len() <= 249 { buf.truncate(10 + b.len()); }
+        }
+    }
+}
 
 /// every encoder with random arguments: exact bytes (C03-C08), length, frame (C16), round trip (C01), probe (C04)
 fn chk_encoders(g: &mut Gen) -> Result<(), String> {
@@ -132,6 +153,7 @@ fn chk_encoders(g: &mut Gen) -> Result<(), String> {
     let extra = g.below(8);
     let which = g.below(27);
     let mut buf = vec![poison; 1100 + extra];
+    let exact = g.below(3) == 0; // C16: a buffer of exactly the packet length must work like a larger one
     let eid_cell = g.u8();
     c.get_response().set_eid(eid_cell);
     // expected: (message type byte, body after the type byte) or None = must be refused with the buffer untouched
@@ -142,33 +164,33 @@ fn chk_encoders(g: &mut Gen) -> Result<(), String> {
         0 => { let op = g.below(4) as u8; let eid = if g.below(4) == 0 { g.pick(&[0x00, 0xFF]) } else { g.u8() };
                expect = if eid == 0 || eid == 0xFF { None } else { Some((0, vec![0x80, 0x01, op, eid])) };
                let o = match op { 0 => MCTPSetEndpointIDOperations::SetEID, 1 => MCTPSetEndpointIDOperations::ForceEID, 2 => MCTPSetEndpointIDOperations::ResetEID, _ => MCTPSetEndpointIDOperations::SetDiscoveredFlag };
-               quiet(|| rq.set_endpoint_id(dst, o, eid, &mut buf)) }
-        1 => { expect = Some((0, vec![0x80, 0x02])); quiet(|| rq.get_endpoint_id(dst, &mut buf)) }
-        2 => { expect = Some((0, vec![0x80, 0x03])); quiet(|| rq.get_endpoint_uuid(dst, &mut buf)) }
+               { fit(&mut buf, &expect, exact); quiet(|| rq.set_endpoint_id(dst, o, eid, &mut buf)) } }
+        1 => { expect = Some((0, vec![0x80, 0x02])); { fit(&mut buf, &expect, exact); quiet(|| rq.get_endpoint_id(dst, &mut buf)) } }
+        2 => { expect = Some((0, vec![0x80, 0x03])); { fit(&mut buf, &expect, exact); quiet(|| rq.get_endpoint_uuid(dst, &mut buf)) } }
         3 => { let q = g.below(5); let (qe, qb) = match q { 0 => (MCTPVersionQuery::MCTPBaseSpec, 0xFF), 1 => (MCTPVersionQuery::MCTPControlProcMessage, 0), 2 => (MCTPVersionQuery::DSP0241, 1), 3 => (MCTPVersionQuery::DSP0261, 2), _ => (MCTPVersionQuery::DSP0261_2, 3) };
-               expect = Some((0, vec![0x80, 0x04, qb])); quiet(|| rq.get_mctp_version_support(dst, qe, &mut buf)) }
-        4 => { expect = Some((0, vec![0x80, 0x05])); quiet(|| rq.get_message_type_suport(dst, &mut buf)) }
-        5 => { let v = g.u8(); expect = Some((0, vec![0x80, 0x06, v])); quiet(|| rq.get_vendor_defined_message_support(dst, v, &mut buf)) }
-        6 => { let v = g.u8(); expect = Some((0, vec![0x80, 0x07, v])); quiet(|| rq.resolve_endpoint_id(dst, v, &mut buf)) }
+               expect = Some((0, vec![0x80, 0x04, qb])); { fit(&mut buf, &expect, exact); quiet(|| rq.get_mctp_version_support(dst, qe, &mut buf)) } }
+        4 => { expect = Some((0, vec![0x80, 0x05])); { fit(&mut buf, &expect, exact); quiet(|| rq.get_message_type_suport(dst, &mut buf)) } }
+        5 => { let v = g.u8(); expect = Some((0, vec![0x80, 0x06, v])); { fit(&mut buf, &expect, exact); quiet(|| rq.get_vendor_defined_message_support(dst, v, &mut buf)) } }
+        6 => { let v = g.u8(); expect = Some((0, vec![0x80, 0x07, v])); { fit(&mut buf, &expect, exact); quiet(|| rq.resolve_endpoint_id(dst, v, &mut buf)) } }
         7 => { let o = g.below(3); let (oe, ob) = match o { 0 => (AllocateEndpointIDOperation::AllocateEIDs, 0), 1 => (AllocateEndpointIDOperation::ForceAllocation, 1), _ => (AllocateEndpointIDOperation::GetAllocationInformation, 2) };
-               let (a, b) = (g.u8(), g.u8()); expect = Some((0, vec![0x80, 0x08, ob, a, b])); quiet(|| rq.allocate_endpoint_ids(dst, oe, a, b, &mut buf)) }
+               let (a, b) = (g.u8(), g.u8()); expect = Some((0, vec![0x80, 0x08, ob, a, b])); { fit(&mut buf, &expect, exact); quiet(|| rq.allocate_endpoint_ids(dst, oe, a, b, &mut buf)) } }
         8 => { let n = if g.below(6) == 0 { 8 + g.below(130) } else { g.below(10) }; let raws: Vec<[u8; 4]> = (0..n).map(|_| [g.u8(), g.u8(), g.u8(), g.u8()]).collect();
                let ents: Vec<_> = raws.iter().map(|r| SMBusRoutingInformationUpdateEntry::new_from_buf(*r)).collect();
                let mut b = vec![0x80, 0x09, n as u8]; for r in &raws { b.extend_from_slice(r); }
                expect = if n >= 8 { None } else { Some((0, b)) };
-               quiet(|| rq.routing_information_update(dst, &ents, &mut buf)) }
-        9 => { let v = g.u8(); expect = Some((0, vec![0x80, 0x0A, v])); quiet(|| rq.get_routing_table_entries(dst, v, &mut buf)) }
-        10 => { expect = Some((0, vec![0x80, 0x0B])); quiet(|| rq.prepare_for_endpoint_discovery(dst, &mut buf)) }
-        11 => { expect = Some((0, vec![0x80, 0x0C])); quiet(|| rq.endpoint_discovery(dst, &mut buf)) }
-        12 => { expect = Some((0, vec![0x80, 0x0D])); quiet(|| rq.discovery_notify(dst, &mut buf)) }
-        13 => { expect = Some((0, vec![0x80, 0x0E])); quiet(|| rq.get_network_id(dst, &mut buf)) }
+               { fit(&mut buf, &expect, exact); quiet(|| rq.routing_information_update(dst, &ents, &mut buf)) } }
+        9 => { let v = g.u8(); expect = Some((0, vec![0x80, 0x0A, v])); { fit(&mut buf, &expect, exact); quiet(|| rq.get_routing_table_entries(dst, v, &mut buf)) } }
+        10 => { expect = Some((0, vec![0x80, 0x0B])); { fit(&mut buf, &expect, exact); quiet(|| rq.prepare_for_endpoint_discovery(dst, &mut buf)) } }
+        11 => { expect = Some((0, vec![0x80, 0x0C])); { fit(&mut buf, &expect, exact); quiet(|| rq.endpoint_discovery(dst, &mut buf)) } }
+        12 => { expect = Some((0, vec![0x80, 0x0D])); { fit(&mut buf, &expect, exact); quiet(|| rq.discovery_notify(dst, &mut buf)) } }
+        13 => { expect = Some((0, vec![0x80, 0x0E])); { fit(&mut buf, &expect, exact); quiet(|| rq.get_network_id(dst, &mut buf)) } }
         14 => { let t = g.u8(); let mtb = g.pick(&[0x00, 0x05, 0x06, 0x7E, 0x7F, 0xFF]);
                 // KF.D7 (recorded): the library sends 0x0E; the DSP0236 code 0x0F is what a repaired tree sends
                 expect = Some((0, vec![0x80, 0x0F, t, mtb]));
-                quiet(|| rq.query_hop(dst, t, MessageType::from(mtb), &mut buf)) }
+                { fit(&mut buf, &expect, exact); quiet(|| rq.query_hop(dst, t, MessageType::from(mtb), &mut buf)) } }
         15 => { let u = g.bytes(16); let h = g.u8(); let mut b = vec![0x80, 0x10]; b.extend_from_slice(&u); b.push(h);
-                expect = Some((0, b)); let ua: [u8; 16] = u.clone().try_into().unwrap(); quiet(|| rq.resolve_uuid(dst, &ua, h, &mut buf)) }
-        16 => { expect = Some((0, vec![0x80, 0x11])); quiet(|| rq.query_rate_limit(dst, &mut buf)) }
+                expect = Some((0, b)); let ua: [u8; 16] = u.clone().try_into().unwrap(); { fit(&mut buf, &expect, exact); quiet(|| rq.resolve_uuid(dst, &ua, h, &mut buf)) } }
+        16 => { expect = Some((0, vec![0x80, 0x11])); { fit(&mut buf, &expect, exact); quiet(|| rq.query_rate_limit(dst, &mut buf)) } }
         17 | 18 => { let fmt = if g.below(5) == 0 { g.u8() } else { g.u8() & 1 }; let data = u32::from_be_bytes([g.u8(), g.u8(), g.u8(), g.u8()]);
                 let n = match g.below(8) { 0 | 1 => 240 + g.below(30), 2 => 250 + g.below(600), _ => g.below(40) }; let msg = g.bytes(n);
                 let f = VendorIDFormat { format: fmt, data, numeric_value: g.u8() as u16 };
@@ -176,30 +198,30 @@ fn chk_encoders(g: &mut Gen) -> Result<(), String> {
                                      1 => { let mut b = data.to_be_bytes().to_vec(); b.extend_from_slice(&msg); Some((0x7F, b)) }
                                      _ => None };
                 if let Some((_, b)) = &expect { if b.len() > 249 { expect = None; } }
-                quiet(|| rq.vendor_defined(dst, &f, &msg, &mut buf)) }
+                { fit(&mut buf, &expect, exact); quiet(|| rq.vendor_defined(dst, &f, &msg, &mut buf)) } }
         19 => { let sec = g.bool(); let hn = g.below(5); let hdr = g.bytes(hn); let n = if g.below(4) == 0 { 240 + g.below(30) } else { g.below(40) }; let data = g.bytes(n);
                 let mut b = hdr.clone(); b.extend_from_slice(&data);
                 expect = if b.len() > 249 { None } else { Some((if sec { 0x06 } else { 0x05 }, b)) };
                 let h: Option<&[u8]> = if hn == 0 && g.bool() { None } else { Some(&hdr) };
                 let mt = if sec { MessageType::SecuredMessages } else { MessageType::SpdmOverMctp };
-                quiet(|| rq.generate_spdm_msg_packet_bytes(dst, mt, &h, &data, &mut buf)) }
+                { fit(&mut buf, &expect, exact); quiet(|| rq.generate_spdm_msg_packet_bytes(dst, mt, &h, &data, &mut buf)) } }
         20 => { let cc = g.u8() % 6; let rej = g.bool(); let al = g.below(3) as u8;
                 expect = Some((0, vec![0x00, 0x01, cc, (if rej { 0x10 } else { 0 }) | al, eid_cell, 0]));
                 let st = if rej { MCTPSetEndpointIDAssignmentStatus::Rejected } else { MCTPSetEndpointIDAssignmentStatus::Accpeted };
                 let a = match al { 0 => MCTPSetEndpointIDAllocationStatus::NoIDPool, 1 => MCTPSetEndpointIDAllocationStatus::RequiresAllocation, _ => MCTPSetEndpointIDAllocationStatus::AlreadyAllocated };
-                quiet(|| rs.set_endpoint_id(cc_of(cc), dst, st, a, &mut buf)) }
+                { fit(&mut buf, &expect, exact); quiet(|| rs.set_endpoint_id(cc_of(cc), dst, st, a, &mut buf)) } }
         21 => { let cc = g.u8() % 6; let et = g.below(2) as u8; let it = g.below(4) as u8; let f = g.bool();
                 expect = Some((0, vec![0x00, 0x02, cc, eid_cell, (et << 4) | it, f as u8]));
                 let e = if et == 0 { MCTPGetEndpointIDEndpointType::Simple } else { MCTPGetEndpointIDEndpointType::Bus };
                 let i = match it { 0 => MCTPGetEndpointIDEndpointIDType::DynamicEID, 1 => MCTPGetEndpointIDEndpointIDType::StaticEID, 2 => MCTPGetEndpointIDEndpointIDType::StaticPresentMatchEID, _ => MCTPGetEndpointIDEndpointIDType::StaticPresentNoMatchEID };
-                quiet(|| rs.get_endpoint_id(cc_of(cc), dst, e, i, f, &mut buf)) }
+                { fit(&mut buf, &expect, exact); quiet(|| rs.get_endpoint_id(cc_of(cc), dst, e, i, f, &mut buf)) } }
         22 => { let cc = g.u8() % 6; let u = g.bytes(16); let mut b = vec![0x00, 0x03, cc]; b.extend_from_slice(&u); expect = Some((0, b));
-                let ua: [u8; 16] = u.try_into().unwrap(); quiet(|| rs.get_endpoint_uuid(cc_of(cc), dst, &ua, &mut buf)) }
-        23 => { let cc = g.u8() % 6; expect = Some((0, vec![0x00, 0x04, cc, 1, 0xF1, 0xF3, 0xF1, 0x00])); quiet(|| rs.get_mctp_version_support(cc_of(cc), dst, &mut buf)) }
+                let ua: [u8; 16] = u.try_into().unwrap(); { fit(&mut buf, &expect, exact); quiet(|| rs.get_endpoint_uuid(cc_of(cc), dst, &ua, &mut buf)) } }
+        23 => { let cc = g.u8() % 6; expect = Some((0, vec![0x00, 0x04, cc, 1, 0xF1, 0xF3, 0xF1, 0x00])); { fit(&mut buf, &expect, exact); quiet(|| rs.get_mctp_version_support(cc_of(cc), dst, &mut buf)) } }
         24 => { let cc = g.u8() % 6; let n = if g.below(5) == 0 { 31 + g.below(700) } else { g.below(34) }; let t = g.bytes(n); let mut b = vec![0x00, 0x05, cc, n as u8]; b.extend_from_slice(&t);
-                expect = if n > 30 { None } else { Some((0, b)) }; quiet(|| rs.get_message_type_suport(cc_of(cc), dst, &t, &mut buf)) }
+                expect = if n > 30 { None } else { Some((0, b)) }; { fit(&mut buf, &expect, exact); quiet(|| rs.get_message_type_suport(cc_of(cc), dst, &t, &mut buf)) } }
         _ => { let cc = g.u8() % 6; let sel = g.u8(); let n = g.below(8); let v = g.bytes(n); let mut b = vec![0x00, 0x06, cc, sel]; b.extend_from_slice(&v);
-                expect = Some((0, b)); quiet(|| rs.get_vendor_defined_message_support(cc_of(cc), dst, sel, &v, &mut buf)) }
+                expect = Some((0, b)); { fit(&mut buf, &expect, exact); quiet(|| rs.get_vendor_defined_message_support(cc_of(cc), dst, sel, &v, &mut buf)) } }
     };
     let r = r.map_err(|m| format!("encoder #{} panicked: {}", which, m))?;
     match (&expect, r) {
@@ -403,14 +425,18 @@ fn chk_burst(g: &mut Gen) -> Result<(), String> {
 fn chk_history(g: &mut Gen) -> Result<(), String> {
     let (addr, types, vids) = ctx_cfg(g);
     let mut c = MCTPSMBusContext::new(addr, &types, &vids);
-    let mut model_eid = 0u8;
+    let mut model_eid = 0u8;      // request half
+    let mut model_eid_s = 0u8;    // response half
     let mut model_uuid = [0u8; 16];
     let steps = 1 + g.below(12);
     let mut trace = vec![];
     for _ in 0..steps {
         match g.below(8) {
-            0 => { let v = g.u8(); c.get_request().set_eid(v); c.get_response().set_eid(v); model_eid = v; trace.push(format!("set_eid({})", v)); }
-            1 => { let u = g.bytes(16); c.set_uuid(&u); model_uuid.copy_from_slice(&u); trace.push("set_uuid".into()); }
+            0 => { let v = g.u8();
+                   match g.below(3) { 0 => { c.get_request().set_eid(v); model_eid = v; trace.push(format!("req.set_eid({})", v)); }
+                                      1 => { c.get_response().set_eid(v); model_eid_s = v; trace.push(format!("resp.set_eid({})", v)); }
+                                      _ => { c.get_request().set_eid(v); c.get_response().set_eid(v); model_eid = v; model_eid_s = v; trace.push(format!("set_eid({})", v)); } } }
+            1 => { let u = if g.below(4) == 0 { vec![0u8; 16] } else { g.bytes(16) }; c.set_uuid(&u); model_uuid.copy_from_slice(&u); trace.push(format!("set_uuid({})", hex(&u))); }
             2 => { let p = gen_packet(g); if !decode_known_panic(&p) { let _ = quiet(|| c.decode_packet(&p).map(|x| x.0 as u8)); } trace.push(format!("decode({})", hex(&p))); }
             3 | 4 => {
                 let op = g.below(4) as u8; let eid = 1 + g.u8() % 0xFE; let good = g.below(4) > 0;
@@ -419,12 +445,12 @@ fn chk_history(g: &mut Gen) -> Result<(), String> {
                 if !good { let l = p.len(); p[l - 1] ^= 0x5A; }
                 let mut rb = [0u8; 64];
                 let r = quiet(|| c.process_packet(&p, &mut rb).map(|x| x.1)).map_err(|m| format!("process_packet({}) panicked: {}", hex(&p), m))?;
-                if good && (op == 0 || op == 1) { model_eid = eid; }
+                if good && (op == 0 || op == 1) { model_eid = eid; model_eid_s = eid; }
                 trace.push(format!("process({})", hex(&p)));
                 if good {
                     match r { Ok(Some(16)) => {}, o => return Err(format!("history {:?}: Set Endpoint ID not answered: {:?}", trace, o.map_err(|e| err_class(&e)))) }
                     if (op == 0 || op == 1) && rb[11..15] != [0, 0, eid, 0] { return Err(format!("history {:?}: assignment answered with {}", trace, hex(&rb[..16]))); }
-                    if op == 3 && (rb[11] != 2 || rb[13] != model_eid) { return Err(format!("history {:?}: Set Discovered Flag answered with {}", trace, hex(&rb[..16]))); }
+                    if op == 3 && (rb[11] != 2 || rb[13] != model_eid_s) { return Err(format!("history {:?}: Set Discovered Flag answered with {}", trace, hex(&rb[..16]))); }
                 }
             }
             _ => {
@@ -433,18 +459,18 @@ fn chk_history(g: &mut Gen) -> Result<(), String> {
                 let is_assign = decode_accepts(&p) && p[8] & 0x7f == 0 && p[9] & 0x80 != 0 && p[10] == 1 && (p[11] == 0 || p[11] == 1);
                 let mut rb = [0u8; 72];
                 let _ = quiet(|| c.process_packet(&p, &mut rb).map(|x| x.1)).map_err(|m| format!("process_packet({}) panicked: {}", hex(&p), m))?;
-                if is_assign { model_eid = p[12]; }
+                if is_assign { model_eid = p[12]; model_eid_s = p[12]; }
                 trace.push(format!("process({})", hex(&p)));
             }
         }
-        if c.get_request().get_eid() != model_eid || c.get_response().get_eid() != model_eid {
-            return Err(format!("history {:?}: EID is {}/{} expected {}", trace, c.get_request().get_eid(), c.get_response().get_eid(), model_eid));
+        if c.get_request().get_eid() != model_eid || c.get_response().get_eid() != model_eid_s {
+            return Err(format!("history {:?}: EID is {}/{} expected {}/{}", trace, c.get_request().get_eid(), c.get_response().get_eid(), model_eid, model_eid_s));
         }
     }
     // observe through Get Endpoint ID, Get Endpoint UUID, Get Message Type Support
     let mut rb = [0u8; 64];
     let q = packet_bytes(addr, 0x11, 0, &[0x80, 0x02]);
-    match c.process_packet(&q, &mut rb) { Ok((_, Some(16))) if rb[12] == model_eid => {}, o => return Err(format!("history {:?}: Get Endpoint ID reports {} expected {} ({:?})", trace, rb[12], model_eid, o.map(|x| x.1).map_err(|e| err_class(&e)))) }
+    match c.process_packet(&q, &mut rb) { Ok((_, Some(16))) if rb[12] == model_eid_s => {}, o => return Err(format!("history {:?}: Get Endpoint ID reports {} expected {} ({:?})", trace, rb[12], model_eid_s, o.map(|x| x.1).map_err(|e| err_class(&e)))) }
     let q = packet_bytes(addr, 0x11, 0, &[0x80, 0x03]);
     match c.process_packet(&q, &mut rb) { Ok((_, Some(29))) if rb[12..28] == model_uuid => {}, o => return Err(format!("history {:?}: Get Endpoint UUID reports {} expected {} ({:?})", trace, hex(&rb[12..28]), hex(&model_uuid), o.map(|x| x.1).map_err(|e| err_class(&e)))) }
     let q = packet_bytes(addr, 0x11, 0, &[0x80, 0x05]);
@@ -492,8 +518,31 @@ fn chk_views(g: &mut Gen) -> Result<(), String> {
         || t.pkt_seq() != (raw[3] >> 4) & 3 || t.to() != (raw[3] >> 3) & 1 || t.msg_tag() != raw[3] & 7 { return Err(format!("transport header getters wrong for {}", hex(&raw))); }
     t.set_pkt_seq(v);
     if t.0 != [raw[0], raw[1], raw[2], (raw[3] & !0x30) | ((v & 3) << 4)] { return Err(format!("set_pkt_seq({}) on {} gives {}", v, hex(&raw), hex(&t.0))); }
-    let ok = MCTPTransportHeader::new_from_buf(raw, 1).is_ok();
-    if ok != (raw[0] == 1) { return Err(format!("transport header validator wrong for {}", hex(&raw))); }
+    let ver = if g.bool() { 1 } else { g.u8() };
+    let ok = MCTPTransportHeader::new_from_buf(raw, ver).is_ok();
+    if ok != (raw[0] >> 4 == 0 && raw[0] & 0x0f == ver) { return Err(format!("transport header validator wrong for {} version {}", hex(&raw), ver)); }
+    {
+        use libmctp::smbus_proto::SMBusRoutingInformationUpdateEntry;
+        let mut e = SMBusRoutingInformationUpdateEntry(raw);
+        if e.entry_type() != raw[0] & 0x0f || e.eid_range_size() != raw[1] || e.first_eid() != raw[2] || e.physical_address() != raw[3] { return Err(format!("routing entry getters wrong for {}", hex(&raw))); }
+        e.set_entry_type(v);
+        if e.0 != [(raw[0] & 0xf0) | (v & 0x0f), raw[1], raw[2], raw[3]] { return Err(format!("set_entry_type({}) on {} gives {}", v, hex(&raw), hex(&e.0))); }
+        let mut t2 = MCTPTransportHeader(raw);
+        t2.set_som(v); t2.set_eom(!v);
+        if t2.0[3] != (raw[3] & 0x3f) | ((v & 1) << 7) | ((!v & 1) << 6) || t2.som() != v & 1 || t2.eom() != !v & 1 { return Err(format!("set_som/set_eom({}) on {} gives {}", v, hex(&raw), hex(&t2.0))); }
+        let mut b = MCTPMessageBodyHeader([raw[0]]);
+        b.set_msg_type(v);
+        if b.0[0] != (raw[0] & 0x80) | (v & 0x7f) || b.msg_type() != v & 0x7f { return Err(format!("set_msg_type({}) on {:#x} gives {:#x}", v, raw[0], b.0[0])); }
+        let mut ch2 = MCTPControlMessageHeader([raw[0], raw[1]]);
+        ch2.set_instance_id(v);
+        if ch2.0 != [(raw[0] & 0xe0) | (v & 0x1f), raw[1]] { return Err(format!("set_instance_id({}) on {} gives {}", v, hex(&raw[..2]), hex(&ch2.0))); }
+        let w16 = u16::from_be_bytes([raw[2], raw[3]]);
+        let mut pc = PCIMessageFormat([raw[0], raw[1]]);
+        pc.set_vendor_id(w16);
+        if pc.0 != [raw[2], raw[3]] || PCIMessageFormat::new(w16).0 != [raw[2], raw[3]] { return Err(format!("PCI set_vendor_id({:#x}) gives {}", w16, hex(&pc.0))); }
+        let w32 = u32::from_be_bytes(raw);
+        if IANAMessageFormat::new(w32).0 != raw { return Err(format!("IANA new({:#x})", w32)); }
+    }
     let okb = MCTPMessageBodyHeader::new_from_buf([raw[0]]).is_ok();
     if okb != (raw[0] & 0x80 == 0 && [0u8, 5, 6, 0x7e, 0x7f].contains(&(raw[0] & 0x7f))) { return Err(format!("message body header validator wrong for {:#x}", raw[0])); }
     let mut s = MCTPSMBusHeader(raw);
@@ -525,7 +574,8 @@ pub fn checks_for(pid: &str) -> Vec<(&'static str, Chk)> {
         "C01" => vec![enc, rcv],
         "C02" => vec![bur, rcv],
         "C03" | "C04" | "C05" => vec![enc, rcv],
-        "C06" | "C07" | "C08" | "C16" => vec![enc],
+        "C07" => vec![enc, rcv, his],
+        "C06" | "C08" | "C16" => vec![enc],
         "C09" | "C10" | "C11" | "C17" => vec![rcv, enc],
         "C12" => vec![rcv, his],
         "C13" => vec![his, rcv],
